@@ -1,4 +1,6 @@
 import TrackpyV.Proofs.Assign
+import TrackpyV.Proofs.Linker
+import TrackpyV.Props.C01
 /-!
 # C02 — every frame-to-frame assignment is the global optimum
 
@@ -353,3 +355,78 @@ example : countOptimal [[(some 0, 1), (none, 9)], [(some 0, 1), (none, 9)]] = 2 
   simp [countOptimal, allCompletions, completions, solveOrdered, go, exceeds, taken, better, addTaken]
 
 end TrackpyV.Assign
+
+/-! ## step level: what the monitor's optimality test establishes -/
+namespace TrackpyV.Linker
+open TrackpyV.Assign
+
+theorem pairwiseDisjointB_pairwise (ls : List (List Nat)) (h : pairwiseDisjointB ls = true) :
+    ls.Pairwise (fun A B => ∀ x ∈ A, x ∉ B) := by
+  induction ls with
+  | nil => exact List.Pairwise.nil
+  | cons x xs ih =>
+    simp only [pairwiseDisjointB, Bool.and_eq_true, List.all_eq_true, Bool.not_eq_true',
+      List.contains_eq_mem, decide_eq_false_iff_not] at h
+    exact List.Pairwise.cons (fun y hy a ha => h.1 y hy a ha) (ih h.2)
+
+theorem zip_map_same {α β γ} (f : α → β) (h : α → γ) (l : List α) :
+    (l.map f).zip (l.map h) = l.map (fun g => (f g, h g)) := by
+  induction l with
+  | nil => rfl
+  | cons a as ih => simp [ih]
+
+/-- **C02 at step level.**  If the monitor's optimality test passes for the labels the
+implementation produced, then the implementation's links — read as one chosen candidate per
+candidate source — are admissible and of minimal total cost (squared displacements plus
+`search_range²` per unlinked candidate source) among ALL one-to-one assignments that use only
+pairs within range, over all sub-nets together. -/
+theorem step_optimal (cfg : Cfg) (hdrop : cfg.drop = false) (st : State) (t : Int) (dsts : List Pos)
+    (labels : List Nat) (h : optWhy cfg st t dsts labels = none) :
+    IsOptimal (gSrcs (stepCands cfg st t dsts) (stepGroups cfg st t dsts)).flatten
+      (gAsg cfg st labels (stepCands cfg st t dsts) (stepGroups cfg st t dsts)).flatten := by
+  unfold optWhy at h
+  simp only at h
+  split at h
+  · cases h
+  · rename_i hd
+    split at h
+    · cases h
+    · rename_i hall
+      simp only [Bool.not_eq_true, Bool.not_eq_false, Bool.not_eq_eq_eq_not, Bool.not_false, Bool.not_true] at hd hall
+      have hd : pairwiseDisjointB (List.map groupDests (gSrcs (stepCands cfg st t dsts) (stepGroups cfg st t dsts))) = true := by
+        revert hd; cases pairwiseDisjointB _ <;> simp
+      apply groups_compose_list
+      · have := pairwiseDisjointB_pairwise _ hd
+        exact (List.pairwise_map).mp this
+      · simp [gSrcs, gAsg]
+      · intro p hp
+        simp only [gSrcs, gAsg, zip_map_same, List.mem_map] at hp
+        obtain ⟨g, hg, rfl⟩ := hp
+        simp only [gSrcs, gAsg, List.all_eq_true] at hall
+        have hok := hall (g.1.map (srcOf (stepCands cfg st t dsts)),
+          g.1.map (asgOf cfg st labels (stepCands cfg st t dsts)), g) (by
+            rw [List.mem_iff_getElem] at hg ⊢
+            obtain ⟨i, hi, rfl⟩ := hg
+            exact ⟨i, by simp; exact hi, by simp⟩)
+        simp only [groupOkB, hdrop, Bool.false_and] at hok
+        by_cases hemp : g.1 = []
+        · simp only [hemp, List.map_nil]
+          refine ⟨(admTk_nil_left _ _).mpr rfl, ?_⟩
+          intro a' ha'
+          have := (admTk_nil_left _ _).mp ha'
+          subst this; exact Nat.le_refl _
+        · have hne : (g.1.map (srcOf (stepCands cfg st t dsts))) ≠ [] := by
+            simpa using hemp
+          have hise : (g.1.map (srcOf (stepCands cfg st t dsts))).isEmpty = false := by
+            simpa using hemp
+          simp only [hise, Bool.false_eq_true, if_false, Bool.and_eq_true] at hok
+          obtain ⟨⟨hsorted, hadm⟩, hcost⟩ := hok
+          have hs : AllSorted (g.1.map (srcOf (stepCands cfg st t dsts))) := by
+            intro s hsm
+            exact (sortedB_iff s).mp (List.all_eq_true.mp hsorted s hsm)
+          split at hcost
+          · rename_i c b hsol
+            exact checked_output_optimal _ hne hs _ c b hadm hsol (by simpa using hcost)
+          · cases hcost
+
+end TrackpyV.Linker
